@@ -44,6 +44,24 @@ namespace Tins {
 class PacketSender;
 class NetworkInterface;
 
+#ifdef LIBTINS_VERIF_HOOKS
+class PDU;
+/**
+ * Verification-only instrumentation (compiled in only with -DLIBTINS_VERIF_HOOKS).
+ */
+namespace Verif {
+struct SerializeMonitor {
+    virtual ~SerializeMonitor() { }
+    // a layer was asked to serialize into fewer bytes than its own header + trailer
+    virtual void short_buffer(const PDU& layer, uint32_t total_sz, uint32_t needed) = 0;
+    // a layer's write_serialization changed a byte belonging to its inner layers
+    virtual void inner_modified(const PDU& layer, uint32_t offset_in_inner, uint8_t before, uint8_t after) = 0;
+};
+// The monitor installed for the calling thread (null by default)
+TINS_API SerializeMonitor*& serialize_monitor();
+} // Verif
+#endif // LIBTINS_VERIF_HOOKS
+
 /**
  * The type used to store several PDU option values.
  */
